@@ -99,11 +99,14 @@ class TAlignModel(TSpec):
     """a constructed single-template, no-rotation alignment model of one of the four concrete classes: box shape S,
     template cache holding the one entry that __init__ stored (pre-transformed template and mask, both of shape S)"""
 
-    def __init__(self, kinds=_MODELS, multi=False):
-        self.kinds, self.multi = kinds, multi
+    def __init__(self, kinds=_MODELS, multi=False, wedge="none"):
+        self.kinds, self.multi, self.wedge = kinds, multi, wedge
 
     def cases(self):
-        return [_TAlignModelCase(k, self.multi) for k in self.kinds]
+        out = [_TAlignModelCase(k, self.multi) for k in self.kinds]
+        for c in out:
+            c.wedge = self.wedge
+        return out
 
 
 class _TAlignModelCase(TSpec):
@@ -133,7 +136,12 @@ class _TAlignModelCase(TSpec):
         min_ = fresh_array(name + "_mask_input", 3 + len(lead), "real", shape=lead + s)
         b0 = T.Backend().fresh(name + "_b0", path)
         cache = _X.Obj(interp.resolve("acryo.alignment._base:TemplateMaskCache"), {"_dict": {b0: (tin, min_)}})
-        wedge = _X.Obj(interp.resolve("acryo.tilt._base:NoWedge"), {})
+        if getattr(self, "wedge", "none") == "single":
+            lo, hi = Sym(z3.Real(f"{name}_tilt_lo")), Sym(z3.Real(f"{name}_tilt_hi"))
+            path.assume(V.sand(V.compare("<=", -90, lo), V.compare("<", lo, hi), V.compare("<=", hi, 90)))
+            wedge = _X.Obj(interp.resolve("acryo.tilt._single:SingleAxisY"), {"_tilt_range": (lo, hi)})
+        else:
+            wedge = _X.Obj(interp.resolve("acryo.tilt._base:NoWedge"), {})
         cutoff = Sym(z3.Real(f"{name}_cutoff"))
         return _X.Obj(cls, {"_n_templates": nt, "_n_rotations": nr, "_template": tmpl, "_mask": mask, "_ndim": 3,
                             "_template_mask_cache": cache, "_tilt_model": wedge, "_cutoff": cutoff})
@@ -166,7 +174,8 @@ def cls_kind(obj):
 class model_landscape:
     """What one landscape task does with the model it shares with all other tasks: it only reads the model (the
     template cache is hit, nothing is stored), and the array it returns has the model's landscape shape."""
-    params = dict(self=TAlignModel(), img=_IMG, max_shifts=_MS, quaternion=T.OneOf(None, T.Arr(1, "real", shape=(4,))),
+    params = dict(self=T.OneOf(TAlignModel(), TAlignModel(multi=True)), img=_IMG, max_shifts=_MS,
+                  quaternion=T.OneOf(None, T.Arr(1, "real", shape=(4,))),
                   pos=T.Const(None), upsample=T.Int(lo=1), backend=T.Const(None))
     requires = ["all(img.shape[a] == self._template.shape[a] for a in range(3))"]
     helpers = dict(_HL, cls_kind=cls_kind)
@@ -175,14 +184,20 @@ class model_landscape:
     native_call = ("args['self'].landscape(args['img'], args['max_shifts'], quaternion=args['quaternion'], "
                    "upsample=args['upsample'])")
     native = {"reads_shared_cache_only": "len(self._template_mask_cache._dict) == 1",
-              "shape": "all(result.shape[a] == lds_len(cls_kind(self), max_shifts[a], upsample, img.shape[a]) for a in range(3))"}
+              "shape": "all(result.shape[result.ndim - 3 + a] == lds_len(cls_kind(self), max_shifts[a], upsample, img.shape[a]) for a in range(3))",
+              "candidates": "result.ndim == 3 or result.shape[0] == self.niter"}
     setup = staticmethod(lambda interp: interp.call_hooks.__setitem__(
         "acryo.alignment._base:RotationImplemented._get_template_and_mask_input",
         _inline("acryo.alignment._base:RotationImplemented._get_template_and_mask_input")))
-    result = lambda interp, bound: fresh_array("landscape", 3, "real", path=interp.path)
+    result = lambda interp, bound: fresh_array(
+        "landscape", 3 if (bound["self"].attrs["_n_templates"] == 1 and bound["self"].attrs["_n_rotations"] == 1) is True else 4,
+        "real", path=interp.path)
     ensures = {
         "reads_shared_cache_only": "writes_to(self._template_mask_cache._dict) == 0",
-        "shape": "all(result.shape[a] == lds_len(cls_kind(self), max_shifts[a], upsample, img.shape[a]) for a in range(3))",
+        "shape": "all(result.shape[result.ndim - 3 + a] == lds_len(cls_kind(self), max_shifts[a], upsample, img.shape[a]) for a in range(3))",
+        # one landscape per candidate (template x rotation) when there are several, a bare 3-d landscape otherwise
+        "candidates": "(result.ndim == 3 and self._n_templates * self._n_rotations == 1) or "
+                      "(result.ndim == 4 and result.shape[0] == self._n_templates * self._n_rotations)",
     }
 
 
@@ -256,18 +271,21 @@ class TModelFactory(TSpec):
         self.kinds = kinds
 
     def cases(self):
-        return [_TModelFactoryCase(k) for k in self.kinds]
+        return [_TModelFactoryCase(k, m) for k in self.kinds for m in (False, True)]
 
 
 class _TModelFactoryCase(TSpec):
-    def __init__(self, kind):
-        self.kind, self.value = kind, kind
+    def __init__(self, kind, multi=False):
+        self.kind, self.multi = kind, multi
+        self.value = kind + ("*" if multi else "")
 
     def fresh(self, name, path):
         kind = self.kind
 
+        multi = self.multi
+
         def factory(template, mask=None, **kw):
-            m = _TAlignModelCase(kind, False).fresh(name + "_model", path)
+            m = _TAlignModelCase(kind, multi).fresh(name + "_model", path)
             s = tuple(template.shape)
             for a in range(3):
                 path.assume(V.compare("==", m.attrs["_template"].shape[a], s[a]))
@@ -399,7 +417,12 @@ class _TSharedModelCase(_TAlignModelCase):
 
 class TSharedModel(TAlignModel):
     def cases(self):
-        return [_TSharedModelCase(k, self.multi) for k in self.kinds]
+        out = [_TSharedModelCase(k, self.multi) for k in self.kinds]
+        for c in out:
+            c.wedge = self.wedge
+            if self.wedge != "none":
+                c.value = c.value + "+wedge"
+        return out
 
 
 _REPLAY_SHARED = '''
